@@ -1,6 +1,18 @@
 HOOK_COMMITS = ["02bc05e", "18a3dee"]
 NOT_APPLICABLE = {}
 TEXT = {
+ "C02": {
+  "text": "Kernel-checked: two stores holding the same sequence of accepted commits are observationally equal whatever "
+          "refused or rolled-back commits, batching or reorganisations happened on the way (commit_determinism), the "
+          "frontier is the fold of the accepted patches (state_is_fold_of_patches), a view at the acknowledged momentum is "
+          "independent of how far the frontier has moved (view_independent_of_frontier), change sets are write-order "
+          "independent; generated fact: no wall-clock/random/goroutine site outside the reviewed list. Tied to the code by "
+          "a producer + five followers under generated delivery schedules with byte-exact state comparison and by feeding "
+          "the real redo patches through the model.",
+  "design_ref": "§3 C02",
+  "note": "Hash functions are parameters; determinism of the Go VM itself is correspondence (multi-node) + AST fact.",
+  "technique": "Lean 4 refinement corollaries + regenerated AST fact + multi-node differential replay",
+ },
  "C08": {
   "text": "Kernel-checked: the write plan of a commit / rollback is ONE leveldb batch whose effect is exactly the manager "
           "model's state transition (add_plan_effect, pop_plan_effect), hence after any number of completed writes the disk "
@@ -59,6 +71,7 @@ TEXT = {
   "note": "Observational, not raw, equality (tombstones of created keys remain in the raw frontier — witness example); "
           "pool and consensus-statistics clauses are correspondence only.",
   "technique": "Lean 4 proof (invariant over reachable manager states) + differential correspondence on op sequences",
+ },
  "C05": {
   "text": "Kernel-checked theorems over Go-faithful models: SelectProducers for any sorting algorithm and any rand.Perm "
           "(exactly NodeCount slots, members only, input-order irrelevance for distinct names, no pillar twice when enough "
